@@ -235,6 +235,45 @@ def relations(ctx, rng, npr, case, reg):
     return g_named, g_pre
 
 
+def kwd_sequences(ctx, rng, npr, reg, names):
+    """the same named metric fitted repeatedly in one process with DIFFERENT metric_kwds values, on dense and on CSR input (the sparse
+    small-data path reaches umap's own pairwise fallback): every fit must equal the precomputed fit on its own distances"""
+    for m in ("minkowski", "wminkowski", "seuclidean"):
+        if m not in names:
+            continue
+        n, k = rng.randint(24, 34), rng.randint(4, 7)
+        X = gen_data(rng, npr, m, n)
+        dim = X.shape[1]
+        if m == "minkowski":
+            kws = [{"p": 3.0}, {"p": 1.5}, {"p": 3.0}]
+        elif m == "wminkowski":
+            kws = [{"w": (np.abs(npr.normal(size=dim)) + 0.3), "p": 2.0}, {"w": (np.abs(npr.normal(size=dim)) * 3 + 0.3), "p": 2.0}]
+        else:
+            kws = [{"sigma": (np.abs(npr.normal(size=dim)) + 0.3)}, {"sigma": (np.abs(npr.normal(size=dim)) * 3 + 0.3)}]
+        for sparse in (False, True):
+            for step, kw in enumerate(kws):
+                case = dict(metric=m, X=X, kw=kw, n=n, k=k, r=1.0, lc=1)
+                try:
+                    D = pairwise(reg[m], X, kw)
+                    D = np.where(np.eye(n, dtype=bool), 0.0, D)
+                    g_pre = fit_graph(D, "precomputed", k, 1.0, 1)
+                except Exception as e:
+                    ctx.notes.append("kwd sequence %s: reference not computable (%s)" % (m, type(e).__name__)); break
+                try:
+                    g_named = fit_graph(sp.csr_matrix(X) if sparse else X, m, k, 1.0, 1, kw)
+                except Exception as e:
+                    if sparse:
+                        ctx.count("csr_input_not_accepted_" + m); break
+                    ctx.fail("UMAP.fit:raises:%s" % m, "%s: %s" % (type(e).__name__, str(e)[:160]), desc_of(case)); break
+                same, md, w = compare(g_named, g_pre, TOL_PRE)
+                ctx.evaluations += 1
+                ctx.tag(("kwseq", m, sparse, step, X.tobytes()), ["kwds", "repeated_fit_new_kwds"] + (["csr_input"] if sparse else []))
+                if not same or md > TOL_PRE:
+                    ctx.fail("UMAP.fit:named_vs_precomputed:%s:repeated_fit_new_kwds" % m,
+                             "fit number %d with metric=%r on %s input and kwds %s differs from the precomputed fit on ITS distances at %s (max abs difference %.3g)"
+                             % (step + 1, m, "CSR" if sparse else "dense", kw_desc(kw), w, md), desc_of(case, relation="named_vs_precomputed", sparse_input=sparse, fit_number=step + 1))
+
+
 def run(ctx):
     ctx.check_proofs(["prop/P_C03.v"])
     P = srcparams.module_constants("umap/umap_.py", {"SMOOTH_K_TOLERANCE", "MIN_K_DIST_SCALE"})
@@ -274,6 +313,7 @@ def run(ctx):
         cfg = "(mkCfg FNum %d%%nat %d%%nat %s %d%%nat %s %s)" % (case["k"], P["n_iter"], fl(math.log2(case["k"])), index, fl(interp), fl(case["r"]))
         terms.append("(mkDist %s\n  %s\n  [%s;\n   %s])" % (cfg, mat_term(case["D"]), coo_term(res[0]), coo_term(res[1])))
         cases.append(desc_of(case, relation="model"))
+    kwd_sequences(ctx, rng, npr, reg, names)
     hdr = ("From Coq Require Import List ZArith PrimFloat. From UV Require Import Num FNum M_knn V_knn.\n"
            "Import ListNotations. Open Scope float_scope.\n")
     shard = 8
